@@ -678,3 +678,81 @@ def derive_shaped(rng, tree):
                 walk(v)
     walk(tree)
     return tree
+
+
+# ---------------------------------------------------------------- grammar-aware near misses
+
+# bodies of a parenthesised list, `T` = a typed entry, `B` = a bare name; written with the
+# separators spelled out so that every almost-legal shape is enumerated, not hoped for
+LIST_SHAPES = [
+    "", "T", "B", "T,T", "B,B", "T,T,T", "B,B,B",
+    ",", ",,", "T,", "B,", "T,T,", "B,B,", ",T", ",B", "T,,T", "B,,B", "T,,", ",T,", "T T", "B B", "T B", "B T",
+    "B,T", "T,B", "B,B,T", "B,T,T", "T,T,B", "T,B,B", "B,T,B", "T,B,T", "B,T,B,T",
+    "N:", "N: ", "N:,T", "T,N:", ":Y", "Y", "T,Y", "N Y", "N::Y", "N:Y:Y", "N:Y Y", "T;T", "T.T",
+]
+TYPES_NEAR = [
+    "int", "T", "?int", "[]int", "[string]int", "?[]?T", "[]?[]T", "?[string]?int", "??T", "?[]??T", "[string",
+    "[string]", "[ string]int", "[string ]int", "[]", "?", "[]]int", "[int]int", "[string]]int", "?[]", "[string]?",
+    "? int", "[] int", "[string] int", "[][]", "[[]]int", "()", "( )", "(a)", "(a,)", "(a: int,)", "(,)", "?()", "[]()",
+    "?(a, b)", "(a: (b: (c: int)))", "(a: (b, c), d: ?[](e: int))", "(a: int, b)", "(a, b: int)", "((a))", "(a: )",
+    "string?", "int[]", "bool int", "Int", "object", "float", "STRING", "T?", "?T?",
+]
+
+
+def _list_body(shape, gap, names):
+    out = ""
+    it = iter(names)
+    for ch in shape:
+        if ch == "T":
+            out += next(it) + ":" + gap + "int"
+        elif ch == "B":
+            out += next(it)
+        elif ch == "N":
+            out += next(it)
+        elif ch == "Y":
+            out += "int"
+        elif ch == ",":
+            out += "," + gap
+        else:
+            out += ch
+    return out
+
+
+def near_miss_lists():
+    """Every list kind x every almost-legal list shape x two gap styles (deterministic)."""
+    names = ["a", "b", "c", "d", "e", "f"]
+    out = []
+    for shape in LIST_SHAPES:
+        for gap in ("", " "):
+            body = _list_body(shape, gap, names)
+            for inner in (body, gap + body + gap if gap else None):
+                if inner is None:
+                    continue
+                lst = "(" + inner + ")"
+                out.append(("method_in", "interface a.b\nmethod M%s -> ()" % lst))
+                out.append(("method_out", "interface a.b\nmethod M() -> %s" % lst))
+                out.append(("error", "interface a.b\nerror E %s" % lst))
+                out.append(("type", "interface a.b\ntype T %s" % lst))
+                out.append(("inline", "interface a.b\nmethod M(x: %s) -> ()" % lst))
+                out.append(("inline_nested", "interface a.b\ntype T (p: ?[]%s, q: int)" % lst))
+    for t in TYPES_NEAR:
+        out.append(("type_shape", "interface a.b\nmethod M(x: %s) -> ()" % t))
+        out.append(("type_shape", "interface a.b\ntype T (x: %s, y: %s)" % (t, t)))
+        out.append(("type_shape", "interface a.b\nerror E (x: %s)" % t))
+    for arrow in ["->", "", "-> ->", "- >", "-->", "->>", "=>", "-", ">", "-> ()  ->"]:
+        out.append(("arrow", "interface a.b\nmethod M() %s ()" % arrow))
+        out.append(("arrow", "interface a.b\nmethod M(a: int)%s(b: int)" % arrow))
+    for tail in ["method M()", "method M() ->", "method M", "method M ->()", "method () -> ()", "method M() -> () ()",
+                 "method M()() -> ()", "method M( ) -> ( )", "method M ( )->( )", "type T", "type T( )", "type (a: int)",
+                 "type T (a: int) (b: int)", "error E", "error E()", "error E ( )", "error (a: int)", "error E -> ()",
+                 "type T (a: int) -> ()", "method M() -> () -> ()", "interface c.d", "type T () type U ()"]:
+        out.append(("member_shape", "interface a.b\n" + tail))
+    for kw in KEYWORDS + ["Type", "Method", "Interface"]:
+        out.append(("kw_name", "interface a.b\ntype T (%s: int)" % kw))
+        out.append(("kw_name", "interface a.b\ntype T (%s, x)" % kw))
+        out.append(("kw_name", "interface a.b\nmethod M(%s: %s) -> ()" % (kw, kw)))
+        out.append(("kw_name", "interface a.b\ntype %s (a: int)" % kw))
+        out.append(("kw_name", "interface a.b\nmethod %s() -> ()" % kw))
+        out.append(("kw_name", "interface a.b\nerror %s ()" % kw))
+        out.append(("kw_name", "interface %s.%s\n" % (kw, kw)))
+    return [(k, t.encode()) for k, t in out]
